@@ -113,16 +113,22 @@ def handleC14 (cmd : String) (args : List Sexp) : Option Sexp :=
       match ms with
       | [m] => pure (.list [runAns (runModSel m sel e), runAns (runModSelOld m sel e)])
       | _ => none
-  | "c14.fwd", [n, arg] => do
+  | "c14.fwd", [n, arg, .atom skip] => do
       -- a call without tensordict_out: (ok which-object returned-content argument-after) | (err argument-after)
       let n ← node? n; let arg ← envv? arg
-      pure (outAns (fwdNode n arg))
-  | "c14.fwd_out", [n, arg, out] => do
+      pure (outAns (fwdNode (skip == "true") n arg))
+  | "c14.fwd_out", [n, arg, out, .atom skip] => do
       -- a call with tensordict_out: (ok out returned-content argument-after)
       let n ← node? n; let arg ← envv? arg; let out ← envv? out
+      let sk := skip == "true"
+      -- the skip test of the decorator comes first and returns the *input* object
+      let skipped := match n with
+        | .mod x => skips sk x.m.ins (x.sel.getD x.m.outs) arg
+        | .seq kids _ sel _ => skips sk (nodesInOut kids [] []).1 (sel.getD (dedupLast (nodesInOut kids [] []).2)) arg
+      if skipped then pure (outAns (fwdNode sk n arg)) else
       let r := match n with
         | .mod x => fwdModOut x arg out
-        | .seq kids _ sel pt => fwdSeqOut kids sel pt arg out
+        | .seq kids _ sel pt => fwdSeqOut sk kids sel pt arg out
       match r with
       | .error (a, al) => pure (if al then tagged "alias" [] else tagged "err" [envSexp a])
       | .ok (a, o, al) => pure (if al then tagged "alias" [] else tagged "ok" [.atom "out", envSexp o, envSexp a])
